@@ -4,7 +4,7 @@ Writes seeded/<id>/meta.json (adds/updates the "checks" section) and tables/seed
 usage: run_seeds.py [id ...]"""
 import json, os, re, subprocess, sys
 VERIF = os.path.dirname(os.path.dirname(os.path.abspath(__file__)))
-EXTRA = {"c01": ["C03", "C27", "C05"], "c27": ["C01", "C03"], "c03": ["C01"], "c06": ["C07"], "c08": [], "c13": [], "c33": [], "c34": []}
+EXTRA = {"c01": ["C03", "C27", "C05"], "c27": ["C01", "C03"], "c03": ["C01"], "c06": ["C07"], "c02": ["C05"], "c04": ["C27"], "c05": ["C02"], "c28": ["C11"]}
 
 
 def section(text, title):
